@@ -3,6 +3,7 @@ package main
 // Forward symbolic execution of go/ssa (naive form) with loop cutting; generates obligations.
 
 import (
+	"os"
 	"fmt"
 	"go/constant"
 	"go/token"
@@ -36,6 +37,7 @@ type Obligation struct {
 	Query   string
 	Relaxed string
 	Sliced  string
+	NoRetry bool // listed known finding: expected to stay undischarged
 	Output  string
 }
 
@@ -311,6 +313,14 @@ func (f *Frame) findLoops() {
 			}
 		}
 	}
+	if os.Getenv("GOVC_DEBUG") != "" && len(f.order) != len(fn.Blocks) {
+		fmt.Fprintf(os.Stderr, "DEBUG %s: %d of %d blocks ordered\n", f.name, len(f.order), len(fn.Blocks))
+		for _, b := range fn.Blocks {
+			if !seen[b] {
+				fmt.Fprintf(os.Stderr, "  unordered block %d (%s) indeg=%d preds=%v\n", b.Index, b.Comment, indeg[b], b.Preds)
+			}
+		}
+	}
 	// rangeindex ordinals
 	n := 0
 	for _, b := range fn.Blocks {
@@ -562,6 +572,9 @@ func (f *Frame) run(entry *State, args []Value, bindings []Value) (*State, []Val
 			st = f.enterLoop(l, st)
 		}
 		f.blockIn[b] = st
+		if os.Getenv("GOVC_DEBUG") != "" && f.parent == nil {
+			fmt.Fprintf(os.Stderr, "DEBUG block %d (%s) dead=%v pc=%s\n", b.Index, b.Comment, st.dead, st.pc.Op)
+		}
 		if st.dead {
 			continue
 		}
@@ -825,6 +838,9 @@ func (f *Frame) execInstr(ins ssa.Instruction, st *State) {
 		f.vals[ins] = f.execNext(ins, st)
 	case *ssa.If:
 		c := f.term(ins.Cond, st)
+		if os.Getenv("GOVC_DEBUG") != "" && f.parent == nil {
+			fmt.Fprintf(os.Stderr, "DEBUG if in block %d cond=%s %s args=%d\n", ins.Block().Index, c.Op, ins.Cond.String(), len(c.Args))
+		}
 		b := ins.Block()
 		f.edge(b, b.Succs[0], st.clone(), c)
 		f.edge(b, b.Succs[1], st.clone(), tNot(c))
@@ -1515,9 +1531,18 @@ func (f *Frame) subSlice(st *State, x, lo, hi *Term) *Term {
 	if c, ok := isIntConst(lo); ok && c == 0 {
 		return mkSlice(x.Sort, slArr(x), hi, tOr(slNN(x), tGt(hi, tInt(0))))
 	}
-	arr := fresh("subarr", slArr(x).Sort)
-	b, k := freshBVar("k", sortInt)
-	f.addHyp(tTrue(), mkQuant("forall", []BVar{b}, tEq(tSelect(arr, k), tSelect(slArr(x), tAdd(lo, k)))))
+	as := slArr(x).Sort
+	sn := "shift$" + sanitize(as.Name)
+	declFun(sn, []*Sort{as, sortInt}, as)
+	ba, a := freshBVar("a", as)
+	bl, l := freshBVar("lo", sortInt)
+	bk, k := freshBVar("k", sortInt)
+	sh := app(sn, as, a, l)
+	fwd := mkForallPat([]BVar{ba, bl, bk}, tEq(tSelect(sh, k), tSelect(a, tAdd(l, k))), []*Term{tSelect(sh, k)})
+	bj, j := freshBVar("j", sortInt)
+	back := mkForallPat([]BVar{ba, bl, bj}, tEq(tSelect(a, j), tSelect(sh, tSub(j, l))), []*Term{tSelect(a, j), sh})
+	addAxiom("def_"+sn, tAnd(fwd, back), sn)
+	arr := app(sn, as, slArr(x), lo)
 	return mkSlice(x.Sort, arr, tSub(hi, lo), tTrue())
 }
 
